@@ -86,7 +86,9 @@ InvContractHomotopy ==
 InvUnblocked ==
   \A a, b \in Verts(K) :
      (a # b /\ {a, b} \in K) =>
-        LET C1 == Unblocked(K, a, b) IN K \subseteq C1 /\ Closed(C1) /\ LinkCond(C1, a, b) /\ Closed(ContractK(K, a, b))
+        LET C1 == TLCEval(Unblocked(K, a, b))
+            C2 == TLCEval(ContractK(K, a, b))
+        IN  K \subseteq C1 /\ LinkCond(C1, a, b) /\ Closed(C2) /\ C2 = {Img(s, a, b) : s \in C1}
 
 (* the polynomial oracle used on recorded executions agrees with the definition *)
 InvBettiAlg == BettiAlgSeq(K, D) = BettiDefSeq(K, D)
